@@ -13,12 +13,12 @@ import (
 	"github.com/MixinNetwork/mixin/crypto"
 )
 
-var ellBig, _ = new(big.Int).SetString("7237005577332262213973186563042994240857116359379907606001950938285454250989", 10)
+var c12EllBig, _ = new(big.Int).SetString("7237005577332262213973186563042994240857116359379907606001950938285454250989", 10)
 
-func modL(n *big.Int) *big.Int { return new(big.Int).Mod(n, ellBig) }
+func c12ModL(n *big.Int) *big.Int { return new(big.Int).Mod(n, c12EllBig) }
 
-// scalarBytes: 32-byte little-endian encoding of n (n < 2^256, not reduced).
-func scalarBytes(n *big.Int) [32]byte {
+// c12ScalarBytes: 32-byte little-endian encoding of n (n < 2^256, not reduced).
+func c12ScalarBytes(n *big.Int) [32]byte {
 	var out [32]byte
 	b := n.Bytes()
 	if len(b) > 32 {
@@ -30,7 +30,7 @@ func scalarBytes(n *big.Int) [32]byte {
 	return out
 }
 
-func bytesScalar(b []byte) *big.Int {
+func c12BytesScalar(b []byte) *big.Int {
 	r := make([]byte, len(b))
 	for i := range b {
 		r[len(b)-1-i] = b[i]
@@ -38,26 +38,26 @@ func bytesScalar(b []byte) *big.Int {
 	return new(big.Int).SetBytes(r)
 }
 
-var pointCache = map[string]crypto.Key{}
+var c12PointCache = map[string]crypto.Key{}
 
-// pointOf returns the encoding of (d mod ℓ)•B computed by the repository's Key.Public().
-func pointOf(d *big.Int) crypto.Key {
-	d = modL(d)
+// c12PointOf returns the encoding of (d mod ℓ)•B computed by the repository's Key.Public().
+func c12PointOf(d *big.Int) crypto.Key {
+	d = c12ModL(d)
 	s := d.String()
-	if k, ok := pointCache[s]; ok {
+	if k, ok := c12PointCache[s]; ok {
 		return k
 	}
-	k := crypto.Key(scalarBytes(d)).Public()
-	if len(pointCache) > 200000 {
-		pointCache = map[string]crypto.Key{}
+	k := crypto.Key(c12ScalarBytes(d)).Public()
+	if len(c12PointCache) > 200000 {
+		c12PointCache = map[string]crypto.Key{}
 	}
-	pointCache[s] = k
+	c12PointCache[s] = k
 	return k
 }
 
-func randScalar(r *Rand) *big.Int {
+func c12RandScalar(r *Rand) *big.Int {
 	for {
-		n := modL(new(big.Int).SetBytes(r.Bytes(40)))
+		n := c12ModL(new(big.Int).SetBytes(r.Bytes(40)))
 		if n.Sign() != 0 {
 			return n
 		}
@@ -66,7 +66,7 @@ func randScalar(r *Rand) *big.Int {
 
 // 32-byte strings that decodePoint must refuse: small-order points, a mixed-order point,
 // non-canonical encodings, garbage. Checked against Key.CheckKey() at start-up.
-var badPointHex = []string{
+var c12BadPointHex = []string{
 	"0000000000000000000000000000000000000000000000000000000000000000", // order 4
 	"ecffffffffffffffffffffffffffffffffffffffffffffffffffffffffffff7f", // order 2
 	"26e8958fc2b227b045c3f489f2ef98f0d5dfac05d3c63339b13802886d53fc05", // order 8
@@ -79,7 +79,7 @@ var badPointHex = []string{
 
 func init() {
 	var ok []string
-	for _, h := range badPointHex {
+	for _, h := range c12BadPointHex {
 		var k crypto.Key
 		b, _ := hex.DecodeString(h)
 		copy(k[:], b)
@@ -87,17 +87,17 @@ func init() {
 			ok = append(ok, h)
 		}
 	}
-	badPointHex = ok
-	if len(badPointHex) < 4 {
+	c12BadPointHex = ok
+	if len(c12BadPointHex) < 4 {
 		panic("harness: too few refused point encodings")
 	}
 }
 
-// genBadPoint: a refused 32-byte string; sometimes the real base point plus a torsion component
+// c12GenBadPoint: a refused 32-byte string; sometimes the real base point plus a torsion component
 // is not available without point arithmetic, so random strings are filtered through CheckKey.
-func genBadPoint(r *Rand) string {
+func c12GenBadPoint(r *Rand) string {
 	if r.Chance(2, 3) {
-		return Pick(r, badPointHex)
+		return Pick(r, c12BadPointHex)
 	}
 	for {
 		var k crypto.Key
@@ -109,7 +109,7 @@ func genBadPoint(r *Rand) string {
 }
 
 // point tokens: decimal discrete log | x<64 hex> refused bytes | xnil nil pointer
-func parsePointTok(t string) (key *crypto.Key, dl *big.Int) {
+func c12ParsePointTok(t string) (key *crypto.Key, dl *big.Int) {
 	if t == "xnil" {
 		return nil, nil
 	}
@@ -122,11 +122,11 @@ func parsePointTok(t string) (key *crypto.Key, dl *big.Int) {
 	if !ok {
 		panic("harness: bad point token " + t)
 	}
-	k := pointOf(d)
-	return &k, modL(d)
+	k := c12PointOf(d)
+	return &k, c12ModL(d)
 }
 
-func parseBigTok(t string) *big.Int {
+func c12ParseBigTok(t string) *big.Int {
 	n, ok := new(big.Int).SetString(t, 10)
 	if !ok {
 		panic("harness: bad integer token " + t)
@@ -135,11 +135,11 @@ func parseBigTok(t string) *big.Int {
 }
 
 // algebraic Schnorr check on discrete logs: s < ℓ, a ≠ 0, r ≠ 0, s = r + x·a (mod ℓ)
-func dlVerify(a, r, s, x *big.Int) bool {
-	if a == nil || r == nil || a.Sign() == 0 || r.Sign() == 0 || s.Cmp(ellBig) >= 0 {
+func c12DlVerify(a, r, s, x *big.Int) bool {
+	if a == nil || r == nil || a.Sign() == 0 || r.Sign() == 0 || s.Cmp(c12EllBig) >= 0 {
 		return false
 	}
 	v := new(big.Int).Mul(x, a)
 	v.Add(v, r)
-	return modL(v).Cmp(s) == 0
+	return c12ModL(v).Cmp(s) == 0
 }
